@@ -169,6 +169,18 @@ def gen_valid_project(rng, cfg=None):
         trees = gen_level(rng, cfg, ns, locales, default, 0, (), fk_pool)
         for l in locales:
             project["data"][(ns, l)] = trees[l]
+    if getattr(cfg, "force_inherits", False) and len(locales) >= 3:
+        # a chain default <- parent <- child (<- grandchild) in which the children leave about half of their keys to the parent
+        chain = [l for l in locales if l != default]
+        inh = {chain[1]: chain[0]}
+        if len(chain) >= 3:
+            inh[chain[2]] = chain[1]
+        project["cfg"]["inherits"] = inh
+        for (ns, l), tree in project["data"].items():
+            if l in inh:
+                for entry in tree:
+                    if entry[1]["k"] != "null" and rng.random() < 0.5:
+                        entry[1] = {"k": "null"}
     # long values: more than 26 flattened segments exercise the tuple chunking of the view generator
     for n in (getattr(cfg, "long_keys", None) or []):
         ns = pick(rng, namespaces or [None])
